@@ -37,7 +37,7 @@ PROP = dict(
         "that the Go recursions fit the goroutine stack at that depth is measured (go.parse.deep up to 10^6 cells)",
         "toString_bounded bounds the LINES printed by the model of toStringImpl (<= 4*65536+1, for every table incl. "
         "exponential DAGs); bytes and allocation of the real ToString are checked per input (output <= lines bound x "
-        "(depth+263), TotalAlloc <= 8 x output + 1 MiB) and lines:bytes are compared Go vs model (boc.tostring)",
+        "(depth+263), TotalAlloc <= 32 x output + 1 MiB) and lines:bytes are compared Go vs model (boc.tostring)",
         "measured allocation bound used by the oracle: TotalAlloc(DeserializeBoc) <= 256*|input| + 1 MiB (a 2-byte cell "
         "costs a 112-byte struct and a 128-byte buffer, so 16 bytes per input byte is not achievable); the model "
         "theorem is parse_alloc <= 189*|input| + 8 in requested bytes",
